@@ -609,6 +609,24 @@ func (e *env) runCell(t failer, md *mode, cc cellCtx, ref *refInfo) *refInfo {
 			}
 			e.keepSample(md.sub, cc.info.Name, map[string]any{"mode": md.name, "cmd": t38.CmdString(w), "reply": res.First, "leader_reply": ref.res.First})
 		}
+		if (dumpChanged || aofChanged) && md.kind == mFollower && n.follows != nil {
+			// did somebody else write to the follower's leader? (a foreign client
+			// on the leader's port replicates here: not this cell's doing)
+			if ld, err := t38.TakeDumpOn(n.follows.admin); err == nil && ld.Canon() != e.prepared {
+				c.Inconclusive("caught-up follower mode dropped: the follower's LEADER changed during %s although this check never writes to it (foreign client?)", t38.CmdString(w))
+				var keep []*mode
+				for _, m2 := range e.modes {
+					if m2.kind != mFollower {
+						keep = append(keep, m2)
+					}
+				}
+				e.modes = keep
+				e.f.stopAsync()
+				e.l2.stopAsync()
+				e.f, e.l2 = nil, nil
+				return nil
+			}
+		}
 		if dumpChanged || aofChanged {
 			fail("state-changed", fmt.Sprintf("dataset/log changed on a server that must not accept writes (dump changed=%v, aof %d -> %d)", dumpChanged, n.base.AOF, after.AOF))
 		}
